@@ -10,17 +10,40 @@ def showCls (n : Str) : String :=
   s!"ok d={showBool (isDummySection n)} i={showOpt toString (matchIndex n)} " ++
   s!"s={showOpt (fun p => s!"{p.1}.{p.2}") (matchSub n)} n={showOpt toString (matchName n)}"
 
+/-- the steps of an `imph` history: six tokens each (`<file name> <node id|none> <doc> <w|t> <payload> <probes>`) -/
+def parseSteps : List String → Option (List (ImportStep × List Nat))
+  | [] => some []
+  | fn :: nid :: doc :: _ :: _ :: pr :: rest =>
+    match hexToStr fn, parseOptInt nid, parseDoc doc, parseProbes pr, parseSteps rest with
+    | some fn, some nid, some doc, some pr, some r => some (({ path := fn, doc := doc, nodeId := nid }, pr) :: r)
+    | _, _, _, _, _ => none
+  | _ => none
+
 /-- ops:
-  `imp <file name> <node id|none> <doc> …`   whole import (anything after the document is for
-                                             the Python side: how the text is produced)
+  `imp <file name> <node id|none> <doc> <w|t> <payload> [<probes>]`   whole import (the payload is for
+                                             the Python side: how the text is produced; the probes
+                                             are the sub-indices every array is asked for)
+  `imph <k> {<file name> <node id|none> <doc> <w|t> <payload> <probes>}*k`   a history: each step
+                                             (re)writes its file and imports it by path
   `int0 s`, `int10 s`, `fromhex s`, `float s`, `rmnode s`, `cls s`, `lines s`   primitives
   `conv <node id|none> <type> s`, `lim <type> s`     value / limit of a one-object file -/
 def step (args : List String) : String :=
   match args with
-  | "imp" :: fn :: nid :: doc :: _ =>
-    match hexToStr fn, parseOptInt nid, parseDoc doc with
-    | some fn, some nid, some doc => showResult (importOd fn doc nid)
-    | _, _, _ => "bad-op"
+  | "imp" :: fn :: nid :: doc :: rest =>
+    let probes := match rest with
+      | [_, _, pr] => parseProbes pr
+      | _ => some defaultProbes
+    match hexToStr fn, parseOptInt nid, parseDoc doc, probes with
+    | some fn, some nid, some doc, some probes => showResult (importOd fn doc nid) probes
+    | _, _, _, _ => "bad-op"
+  | "imph" :: k :: rest =>
+    match k.toNat?, parseSteps rest with
+    | some k, some steps =>
+      if k = steps.length ∧ 0 < k then
+        "ok " ++ " # ".intercalate
+          ((List.zip steps (importHistory [] (steps.map (·.1)))).map fun p => showResult p.2 p.1.2)
+      else "bad-op"
+    | _, _ => "bad-op"
   | ["int0", s] => match hexToStr s with
     | some s => showOptInt (pyInt0 s)
     | none => "bad-op"
